@@ -3,6 +3,8 @@
 From Coq Require Import List Bool ZArith.
 From GV Require Import Base.Outcome Base.AMap Model.GState Model.Creation Model.Query
      Model.Components Model.Scc Spec.ReachDef Spec.CompSpec Proofs.PartitionsTotalOk.
+From GV Require Import Spec.EdgeAdj Proofs.WFDefs Proofs.HistoryOk Proofs.CompWF.
+From Coq Require Import Lia.
 Import ListNotations.
 Open Scope Z_scope.
 
@@ -85,3 +87,47 @@ Proof. intros l x. symmetry. apply in_rev. Qed.
 
 Example equal_size_total_hypotheses : on_graph ex_dg (fun g => vec_ok_b g) false = true.
 Proof. vm_compute. reflexivity. Qed.
+
+(* ---- the end-to-end theorems (C10_*_wf / C10_*_reachable) are not vacuous: the hypotheses on
+   the name order hold for integers, the example graphs are built (hence reachable, hence WF),
+   and the theorems then apply without any computation on the state ---- *)
+Lemma z_eqb_spec : forall x y : Z, Z.eqb x y = true <-> x = y.
+Proof. apply Z.eqb_eq. Qed.
+Lemma z_ltb_asym : forall x y : Z, Z.ltb x y = true -> Z.ltb y x = false.
+Proof. intros x y H. apply Z.ltb_lt in H. apply Z.ltb_ge. lia. Qed.
+Lemma z_ltb_total : forall x y : Z, Z.ltb x y = false -> Z.ltb y x = false -> x = y.
+Proof. intros x y H1 H2. apply Z.ltb_ge in H1. apply Z.ltb_ge in H2. lia. Qed.
+
+Lemma built_WF : forall ns es s (g : gstate Z Z),
+  new_from_nodes_and_edges Z.eqb Z.ltb ns es s = Ok g -> WF Z.eqb Z.ltb g.
+Proof.
+  intros ns es s g H. apply (WF_reachable Z.eqb Z.ltb z_eqb_spec z_ltb_asym z_ltb_total s).
+  exact (new_from_reachable Z.eqb Z.ltb z_eqb_spec ns es s g H).
+Qed.
+
+Example examples_are_built : is_ok ex_ug && is_ok ex_dg = true.
+Proof. vm_compute. reflexivity. Qed.
+
+(* for every graph that new_from_nodes_and_edges builds (any node list, edge list, specs) *)
+Lemma end_to_end_connected_built : forall ns es s (g : gstate Z Z),
+  new_from_nodes_and_edges Z.eqb Z.ltb ns es s = Ok g -> directed s = false ->
+  exists cs, connected_components Z.eqb g = Ok cs /\
+             is_component_partition (g_nodes g) (g_connected g) cs.
+Proof.
+  intros ns es s g H Hd.
+  apply (connected_components_wf Z.eqb Z.ltb z_eqb_spec z_ltb_total g (built_WF _ _ _ g H)).
+  rewrite (reachable_sp Z.eqb Z.ltb z_eqb_spec z_ltb_asym z_ltb_total s g
+             (new_from_reachable Z.eqb Z.ltb z_eqb_spec ns es s g H)). exact Hd.
+Qed.
+
+Lemma end_to_end_strong_built : forall ns es s (g : gstate Z Z),
+  new_from_nodes_and_edges Z.eqb Z.ltb ns es s = Ok g -> directed s = true ->
+  exists cs, strongly_connected_components Z.eqb (@rev Z) g = Ok cs /\
+             is_component_partition (g_nodes g) (g_strongly g) cs.
+Proof.
+  intros ns es s g H Hd.
+  apply (strongly_connected_components_wf Z.eqb Z.ltb z_eqb_spec z_ltb_total (@rev Z) g rev_permutes
+           (built_WF _ _ _ g H)).
+  rewrite (reachable_sp Z.eqb Z.ltb z_eqb_spec z_ltb_asym z_ltb_total s g
+             (new_from_reachable Z.eqb Z.ltb z_eqb_spec ns es s g H)). exact Hd.
+Qed.
